@@ -115,3 +115,19 @@ Theorem C01_chain_hypotheses_satisfiable :
              length (receipts s') = 2%nat.
 Proof. exact chain_hypotheses_satisfiable. Qed.
 Print Assumptions C01_chain_hypotheses_satisfiable.
+
+(** the block reward as composed by a DPoS node: voting reward, then a fresh coinbase copy credited with BpReward *)
+Theorem C01_block_reward_composition_conserves : forall reward winner cb s,
+  nonneg s -> 0 <= reward -> 0 <= bp_reward s ->
+  nonneg (send_reward_coinbase (send_voting_reward reward winner s) cb) /\
+  supply (send_reward_coinbase (send_voting_reward reward winner s) cb)
+    = supply s + (match cb with Some _ => bp_reward s | None => 0 end).
+Proof. exact block_reward_composition_conserves. Qed.
+Print Assumptions C01_block_reward_composition_conserves.
+
+(** loading the coinbase copy before the hook (stale copy) loses the reward when winner = coinbase *)
+Theorem C01_block_reward_stale_order_refuted :
+  supply (block_reward_stale 160 (Some 10%N) 10%N w_rstate) = supply w_rstate + bp_reward w_rstate - 160 /\
+  supply (send_reward_coinbase (send_voting_reward 160 (Some 10%N) w_rstate) (Some 10%N)) = supply w_rstate + bp_reward w_rstate.
+Proof. exact block_reward_stale_order_refuted. Qed.
+Print Assumptions C01_block_reward_stale_order_refuted.
